@@ -226,7 +226,9 @@ func loopVariant(fn *ssa.Function, h *ssa.BasicBlock) (kind string, ok bool) {
 	// (a') budget counter kept in a local cell (a named result spilled because of a defer)
 	for _, ex := range exits {
 		at := core.Decompose(ex.ifi.Cond)
-		if at.Op != token.GEQ && at.Op != token.GTR {
+		upper := at.Op == token.GEQ || at.Op == token.GTR // `cell >= limit` leaves the loop
+		lower := at.Op == token.LSS || at.Op == token.LEQ // `cell < limit` stays in it
+		if !upper && !lower {
 			continue
 		}
 		if _, isC := at.Other.(*ssa.Const); !isC {
@@ -248,10 +250,10 @@ func loopVariant(fn *ssa.Function, h *ssa.BasicBlock) (kind string, ok bool) {
 		if captured {
 			continue
 		}
-		// the loop continues on the false side of `cell >= const`
+		// the loop continues on the false side of `cell >= const` (the true side of `cell < const`)
 		contSucc := 1 - ex.succ
 		contWhenAtomTrue := (contSucc == 0) != at.Neg
-		if contWhenAtomTrue {
+		if contWhenAtomTrue != lower {
 			continue
 		}
 		isInc := func(in ssa.Instruction) bool {
